@@ -39,6 +39,11 @@ pub fn build_variant_groups<IntT: for<'a> UInt<'a>>(
 
     pool.install(|| {
         start_kmers.par_iter().for_each(|kmer| {
+            #[cfg(feature = "verif-hooks")]
+            crate::verif_hooks::point(
+                "variant_groups",
+                (*kmer & IntT::skalo_mask(31)).to_u64().unwrap_or(0),
+            );
             let mut tmp_container: HashMap<IntT, Vec<Vec<IntT>>> = HashMap::new();
 
             let mut good_next: Vec<IntT> = Vec::with_capacity(2);
@@ -220,6 +225,11 @@ pub fn build_variant_groups<IntT: for<'a> UInt<'a>>(
                 }
                 // save it to main variable
                 if !tmp_container_2.is_empty() {
+                    #[cfg(feature = "verif-hooks")]
+                    crate::verif_hooks::point(
+                        "variant_groups_lock",
+                        (*kmer & IntT::skalo_mask(31)).to_u64().unwrap_or(0),
+                    );
                     let mut built_groups_locked = built_groups.lock().unwrap();
                     built_groups_locked.extend(tmp_container_2);
                 }
